@@ -39,5 +39,5 @@ out = {}
 with ThreadPoolExecutor(int(sys.argv[2]) if len(sys.argv) > 2 else 3) as ex:
     for name, row in ex.map(run_one, names):
         out[name] = row
-        json.dump(out, open("/verif/seeded/REFACTOR_MATRIX.json", "w"), indent=1, sort_keys=True)
+        json.dump(out, open(os.path.join("/verif/seeded", os.environ.get("REFMATRIX_OUT", "REFACTOR_MATRIX.json")), "w"), indent=1, sort_keys=True)
         print(name, " ".join("%s=%s" % (k, v) for k, v in sorted(row.items()) if not k.endswith("_why")), flush=True)
